@@ -4,6 +4,7 @@ Helper lemmas for C15 (CV.Chain): invariants of the compiler state that `assembl
 -/
 import CV.Proofs.Chain
 set_option linter.unusedVariables false
+set_option linter.unusedSimpArgs false
 namespace CV.Chain
 
 /-- all splitter entries have at least one split (what `ServiceSplitterConfigEntry.Validate` enforces) -/
